@@ -160,6 +160,7 @@ type AbstractFunc struct {
 }
 
 type SpecDB struct {
+	GhostGlobals map[string]string // name -> Go type text
 	Abstracts map[string]*AbstractFunc
 	Funcs  map[string]*FuncSpec
 	Pures  map[string]*PureFunc
@@ -170,7 +171,7 @@ type SpecDB struct {
 }
 
 func NewSpecDB() *SpecDB {
-	return &SpecDB{Funcs: map[string]*FuncSpec{}, Pures: map[string]*PureFunc{}, Abstracts: map[string]*AbstractFunc{}}
+	return &SpecDB{Funcs: map[string]*FuncSpec{}, Pures: map[string]*PureFunc{}, Abstracts: map[string]*AbstractFunc{}, GhostGlobals: map[string]string{}}
 }
 
 // ---------------- lexer ----------------
@@ -719,8 +720,14 @@ func (db *SpecDB) LoadFile(path, pkg string) error {
 		case "ghost":
 			// ghost field T.name type
 			w2, r2 := splitWord(rest)
+			if w2 == "global" {
+				gn, gt := splitWord(r2)
+				db.GhostGlobals[gn] = strings.TrimSpace(gt)
+				cur = nil
+				break
+			}
 			if w2 != "field" {
-				return fail(i, "expected 'ghost field'")
+				return fail(i, "expected 'ghost field' or 'ghost global'")
 			}
 			tn, gt := splitWord(r2)
 			k := strings.LastIndex(tn, ".")
@@ -1149,6 +1156,12 @@ func parseModLoc(s string) (ModLoc, error) {
 			return ml, err
 		}
 		switch x := e.(type) {
+		case EIdent:
+			if strings.HasPrefix(x.Name, "$") {
+				ml.E, ml.Kind = e, "ghostglobal"
+				return ml, nil
+			}
+			return ml, fmt.Errorf("modifies: unsupported location %q", s)
 		case ESlice:
 			ml.E, ml.Kind, ml.Lo, ml.Hi = x.X, "range", x.Lo, x.Hi
 		case ESel:
